@@ -1,7 +1,8 @@
 """Generator of multi-object x86-64 programs with a known reference graph (shared by C39, C05, C06, ...).
 
 A program = N objects; object k has functions f<k>_<j>, each in its own section .text.f<k>_<j> (as -ffunction-sections),
-data objects d<k>_<j> in .data.d<k>_<j> holding pointers, members of a C-identifier-named set section `myset`
+call sites use direct, PLT, GOT, lea and 64-bit absolute forms, functions may carry R_X86_64_NONE references (edges
+that patch nothing), data objects d<k>_<j> in .data.d<k>_<j> holding pointers, members of a C-identifier-named set section `myset`
 (start/stop roots), optional .init_array entries.  Every function returns a distinct constant combined with the
 results of its callees, so that _start's exit status is a checksum of the reachable call tree (cycles are cut by a
 depth counter in %rdi)."""
@@ -22,6 +23,9 @@ class Program:
             n = rng.choice([0, 0, 1, 1, 2, 3]) if rng.random() < 0.9 else 6
             self.calls[f] = [rng.choice(self.funcs) for _ in range(n)] if rng.random() < density * 3 else []
             self.fdata[f] = []
+        # how each call site refers to its callee (every form is a GC edge), and references that patch nothing at all
+        self.callform = {f: [rng.choice(["call", "call", "plt", "got", "lea", "abs64"]) for _ in self.calls[f]] for f in self.funcs}
+        self.none_refs = {f: ([rng.choice(self.funcs) for _ in range(rng.choice([1, 2]))] if rng.random() < 0.2 else []) for f in self.funcs}
         self.data = [(k, j) for k in range(nobj) for j in range(max(1, nfun // 3))]
         for d in self.data:
             self.dataptrs[d] = [rng.choice(self.funcs) for _ in range(rng.choice([0, 1, 2]))]
@@ -58,6 +62,8 @@ class Program:
                 seen_f.add(x)
                 for c in self.calls[x]:
                     work.append(("f", c))
+                for c in self.none_refs[x]:          # an R_X86_64_NONE relocation is a reference like any other
+                    work.append(("f", c))
                 for d in self.fdata[x]:
                     work.append(("d", d))
                 if self.uses_set and x == self.set_user and not set_live:
@@ -82,8 +88,13 @@ class Program:
                 s.append(f'.section .text.{self.fname(f)},"ax",@progbits\n.globl {self.fname(f)}\n.type {self.fname(f)},@function\n{self.fname(f)}:')
                 s.append(f" push %rbx\n mov ${1 + (k * 31 + j * 7) % 97},%ebx")
                 s.append(" test %edi,%edi\n jz 9f\n dec %edi")
-                for c in self.calls[f]:
-                    s.append(f" push %rdi\n call {self.fname(c)}\n pop %rdi\n add %eax,%ebx")
+                for c, form in zip(self.calls[f], self.callform[f]):
+                    n = self.fname(c)
+                    how = {"call": f" call {n}", "plt": f" call {n}@PLT", "got": f" mov {n}@GOTPCREL(%rip),%rax\n call *%rax",
+                           "lea": f" lea {n}(%rip),%rax\n call *%rax", "abs64": f" movabs ${n},%rax\n call *%rax"}[form]
+                    s.append(f" push %rdi\n{how}\n pop %rdi\n add %eax,%ebx")
+                for c in self.none_refs[f]:
+                    s.append(f" .reloc ., R_X86_64_NONE, {self.fname(c)}")
                 for d in self.fdata[f]:
                     s.append(f" lea {self.dname(d)}(%rip),%rax\n add (%rax),%ebx")
                 if self.uses_set and f == self.set_user:
